@@ -23,6 +23,8 @@ class RecFundamentals(Fundamentals):
     def __init__(self, prng):
         super().__init__(prng)
         self.chunks = []
+        # the harness' own bookkeeping of what has been configured, by unordered pair (last call wins)
+        self.expected_corr = {}
 
     def _generate_log_return(self, generate_target_ids, length):
         orig_chol = pf.cholesky
@@ -50,7 +52,8 @@ class RecFundamentals(Fundamentals):
         self.chunks.append({"ids": list(generate_target_ids), "from": self._generated_until, "length": length,
                             "returns": np.array(r), "start": [self.prices[x][self._generated_until] for x in generate_target_ids],
                             "vols": [self.volatilities[x] for x in generate_target_ids],
-                            "drifts": [self.drifts[x] for x in generate_target_ids], **rec})
+                            "drifts": [self.drifts[x] for x in generate_target_ids],
+                            "expected_corr": dict(self.expected_corr), **rec})
         return r
 
 
@@ -74,17 +77,24 @@ def gen_case(rng):
         return np.linalg.eigvalsh(M).min() > 0.15
     while corr and not pd(corr):
         corr.pop()
-    if n >= 2 and not pd([c for c in corr if (c[0], c[1]) != (0, 1)] + [(0, 1, 0.3)]):
+    if n >= 2 and not all(pd([c for c in corr if (c[0], c[1]) != (0, 1)] + [(0, 1, r)]) for r in (0.3, -0.3, 0.25, 0.0)):
         corr = []
     horizon = rng.choice([5, 50, 120, 260])
     ops = []
     t = 0
     for _ in range(rng.randint(0, 4)):
         t = rng.randint(t, horizon)
-        kind = rng.choice(["get", "drift", "vol", "shock", "corr"])
+        kind = rng.choice(["get", "drift", "vol", "shock", "corr", "corr", "uncorr"])
         ops.append({"kind": kind, "t": t, "market": rng.randint(0, n - 1), "value": rng.choice([0.0, 5e-4, -1e-3, 0.02, 0.005]),
-                    "scale": rng.choice([0.5, 1.1, 2.0])})
-    return {"markets": mk, "corr": corr, "horizon": horizon, "ops": ops, "seed": rng.randint(0, 10 ** 9)}
+                    "scale": rng.choice([0.5, 1.1, 2.0]), "swap": rng.random() < 0.5,
+                    "rho": rng.choice([0.3, 0.3, -0.3, 0.25])})
+    # the same pair may be stated more than once, in either orientation (the last statement counts)
+    corr0 = []
+    for a, b, c in corr:
+        if rng.random() < 0.3:
+            corr0.append((b, a, rng.choice([0.1, -0.2])) if rng.random() < 0.7 else (a, b, 0.1))
+        corr0.append((b, a, c) if rng.random() < 0.4 else (a, b, c))
+    return {"markets": mk, "corr": corr0, "horizon": horizon, "ops": ops, "seed": rng.randint(0, 10 ** 9)}
 
 
 def run_case(case):
@@ -93,6 +103,7 @@ def run_case(case):
         f.add_market(market_id=i, initial=m["initial"], drift=m["drift"], volatility=m["vol"])
     for a, b, c in case["corr"]:
         f.set_correlation(a, b, c)
+        f.expected_corr[frozenset((a, b))] = c
     events = []
     clock = 0
 
@@ -110,9 +121,15 @@ def run_case(case):
         elif k == "vol":
             f.change_volatility(market_id=op["market"], volatility=abs(op["value"]), time=t)
         elif k == "corr" and len(case["markets"]) >= 2:
-            a, b = 0, 1
+            a, b = (1, 0) if op.get("swap") else (0, 1)
             if f.volatilities[a] > 0 and f.volatilities[b] > 0:
-                f.set_correlation(a, b, 0.3, time=t)
+                f.set_correlation(a, b, op.get("rho", 0.3), time=t)
+                f.expected_corr[frozenset((a, b))] = op.get("rho", 0.3)
+        elif k == "uncorr" and len(case["markets"]) >= 2:
+            a, b = (1, 0) if op.get("swap") else (0, 1)
+            if frozenset((a, b)) in f.expected_corr:
+                f.remove_correlation(a, b, time=t)
+                del f.expected_corr[frozenset((a, b))]
         elif k == "shock":
             # what Market.change_fundamental_price does
             new = f.prices[op["market"]][t] * op["scale"]
@@ -184,6 +201,15 @@ def monitor(case, f, events):
             for a in range(len(cid)):
                 if not math.isclose(cov[a][a], vols[a] ** 2, rel_tol=1e-12):
                     out.append(viol("C12/covariance-diagonal-not-vol-squared", "configured volatility is the standard deviation of the returns", {"market": cid[a]}, case))
+                for b in range(len(cid)):
+                    if a != b:
+                        rho = ch.get("expected_corr", {}).get(frozenset((cid[a], cid[b])), 0.0)
+                        want = vols[a] * rho * vols[b]
+                        if not math.isclose(cov[a][b], want, rel_tol=1e-12, abs_tol=1e-18):
+                            out.append(viol("C12/covariance-not-configured-correlation",
+                                            "the returns' covariance is vol_a x (the correlation configured last for the pair, 0 if none or removed) x vol_b",
+                                            {"markets": [cid[a], cid[b]], "from_time": ch["from"], "configured": rho,
+                                             "used": cov[a][b] / (vols[a] * vols[b])}, case))
     # path consistency: final prices follow the last generated chunks
     return out
 
